@@ -6,6 +6,7 @@ require (
 	github.com/cloudflare/pint v0.0.0
 	github.com/prometheus/client_golang v1.22.0
 	github.com/prometheus/common v0.62.0
+	github.com/prometheus/prometheus v0.303.0
 	pgregory.net/rapid v1.3.0
 )
 
@@ -35,7 +36,6 @@ require (
 	github.com/munnerz/goautoneg v0.0.0-20191010083416-a7dc8b61c822 // indirect
 	github.com/prometheus/client_model v0.6.2 // indirect
 	github.com/prometheus/procfs v0.15.1 // indirect
-	github.com/prometheus/prometheus v0.303.0 // indirect
 	github.com/prymitive/current v0.1.1 // indirect
 	github.com/zclconf/go-cty v1.16.2 // indirect
 	gitlab.com/gitlab-org/api/client-go v0.127.0 // indirect
